@@ -133,6 +133,11 @@ def scenarios(tier, seed=0):
         sc = mk("05/01", 0, D(2001, 4, 29), D(2002, 8, 30) if not off else D(2001, 9, 30), off, thermal=True, word="normal")
         sc["numpy"] = True
         out.append(sc)
+    # cumulative degree days that land EXACTLY on the maturity threshold with a live canopy (16 a day x 150 days = 2400, WheatGDD)
+    for off in (False, True):
+        sc = mk("10/15", 0, D(2001, 10, 12), D(2003, 6, 30) if not off else D(2002, 6, 30), off, thermal=True, word="steady16")
+        sc["thermal_crop"] = "WheatGDD"
+        out.append(sc)
     for s in out:
         yield s
 
@@ -146,7 +151,9 @@ def build_spec(scn):
 
 def _build_spec(scn):
     L = scn["L"]
-    if scn["thermal"]:
+    if scn["thermal"] and scn.get("thermal_crop"):
+        crop = {"name": scn["thermal_crop"], "planting": scn["planting"], "harvest": scn["harvest"], "scale": None, "gddscale": None, "kw": {}}
+    elif scn["thermal"]:
         crop = {"name": "MaizeGDD", "planting": scn["planting"], "harvest": scn["harvest"], "scale": None, "gddscale": 0.15, "kw": {}}
     else:
         # canopy decline slowed a little so that the scaled crop reaches maturity instead of always dying of senescence first
